@@ -101,6 +101,9 @@ class ClassBuilder:
       idx = ["lit", d(st.integers(0, cnt - 1))]
     e = ["lsel", mkref(base, inst=inst), cnt, idx]
     ew = t[1]
+    if ew > w and d(st.booleans()):
+      lo = d(st.integers(0, ew - w))
+      return ["lsel", mkref(base, inst=inst), cnt, idx, [lo, lo + w]]       # s.xs[idx][lo:hi]
     if ew == w: return e
     if ew > w: return ["trunc", e, w]
     return [d(st.sampled_from(["zext", "sext"])), e, w]
@@ -171,6 +174,11 @@ class ClassBuilder:
     if depth >= maxd or d(st.integers(0, 9)) < 3 + depth:
       return self.leaf(w, env)
     k = d(st.integers(0, 15))
+    if w == 1 and env.get("lv") and k < 8 and d(st.integers(0, 2)) == 0:
+      # compare something with the loop variable, given an explicit width by a BitsN( i ) cast
+      lv, cnt = d(st.sampled_from(env["lv"]))
+      kw = max(1, (cnt - 1).bit_length()) + d(st.integers(0, 2))
+      return ["cmp", d(st.sampled_from(["==", "!=", "<", ">="])), self.expr(kw, env, depth + 1), ["cast", kw, ["lv", lv]]]
     if w == 1 and k < 6:
       j = d(st.integers(0, 3))
       if j == 0:
@@ -299,8 +307,35 @@ class ClassBuilder:
         body = [["assign_bit", ref, ["lv", lv], self.expr(1, env2, 1)]]
         if d(st.integers(0, 2)) == 0:
           stmts.append(["assign", ref, self.expr(w, env)])
-        rev = d(st.integers(0, 3)) == 0 and not self.opts["translatable"]
-        stmts.append(["for", lv, w - 1, -1, -1, body] if rev else ["for", lv, 0, w, 1, body])
+        shape = d(st.integers(0, 7))
+        if shape == 0 and not self.opts["translatable"]:
+          stmts.append(["for", lv, w - 1, -1, -1, body])               # (the translators reject a negative end)
+        elif shape == 1:
+          # descending loop over bits w-1 .. 1, bit 0 separately
+          stmts.append(["for", lv, w - 1, 0, -1, body])
+          stmts.append(["assign_bit", ref, ["lit", 0], self.expr(1, env, 1)])
+        elif shape == 2 and w >= 3:
+          body2 = [["assign_bit", ref, ["lv", lv], self.expr(1, env2, 1)]]
+          if d(st.integers(0, 7)) == 0:
+            # even bits ascending, odd bits descending: range(odd, 0, -2) steps from 1 to -1 after its last
+            # iteration (the emitted 'int unsigned' loop variable wraps: C03 known finding)
+            stmts.append(["for", lv, 0, w, 2, body])
+            stmts.append(["for", lv, w - 1 if (w - 1) % 2 else w - 2, 0, -2, body2])
+          else:
+            # odd bits ascending, even bits descending down to 2, bit 0 separately
+            stmts.append(["for", lv, 1, w, 2, body])
+            stmts.append(["for", lv, w - 1 if (w - 1) % 2 == 0 else w - 2, 0, -2, body2])
+            stmts.append(["assign_bit", ref, ["lit", 0], self.expr(1, env, 1)])
+        else:
+          stmts.append(["for", lv, 0, w, 1, body])
+      elif mode == 1 and d(st.booleans()):
+        # an if-expression with a literal branch, directly on the right-hand side (the only place where a bare int
+        # may come out of it)
+        top = (1 << w) - 1
+        lit = ["lit", d(st.integers(0, min(top, 9)))]
+        e = self.expr(w, env, 1)
+        stmts.append(["assign", ref, ["ifexp", self.expr(1, env, 1), lit, e] if d(st.booleans())
+                      else ["ifexp", self.expr(1, env, 1), e, lit]])
       else:
         stmts.append(["assign", ref, self.expr(w, env)])
     # conditional re-assignment
@@ -344,10 +379,26 @@ class ClassBuilder:
         stmts = [["if", ["sig", mkref("reset")], rst, stmts]]
     return {"name": name, "kind": "ff", "stmts": stmts}
 
+  def struct_sources(self, t):
+    """refs of type t: whole available signals and nested struct-typed sub-objects of available signals"""
+    out = []
+    for r, at in self.avail:
+      if at == t: out.append(r)
+      if at[0] == "s":
+        def rec(tt, path):
+          for fname, ft in tt[2]:
+            elems = [(path + [fname] + list(idx), ft[2]) for idx in _indices(ft[1])] if ft[0] == "l" else [(path + [fname], ft)]
+            for pth, et in elems:
+              if et == t:
+                rr = dict(r); rr["fld"] = pth; out.append(rr)
+              if et[0] == "s": rec(et, pth)
+        rec(at, [])
+    return out
+
   def struct_assign(self, ref, t, env):
     """whole-struct assignment from another struct source of the same type, or field-wise constructor"""
     d = self.draw
-    same = [r for r, at in self.avail if at == t and r != ref]
+    same = [r for r in self.struct_sources(t) if r != ref]
     if same and d(st.booleans()):
       return ["assign", ref, ["sig", d(st.sampled_from(same))]]
     if all(ft[0] == "b" for _, ft in t[2]):
@@ -424,7 +475,7 @@ class ClassBuilder:
         else:
           self.conns.append([ref, ["const", w, d(st.integers(0, (1 << w) - 1))]])
       elif how == 0 and pt[0] == "s":
-        same = [r for r, at in self.avail if at == pt]
+        same = self.struct_sources(pt)
         if same: self.conns.append([ref, d(st.sampled_from(same))])
         else: blk_parts.append((ref, w, pt))
       else:
@@ -537,7 +588,7 @@ class ClassBuilder:
     # registers (available from the start)
     regs = []
     if o["ff"]:
-      for _ in range(d(st.integers(2, 5)) if o["ff_heavy"] else d(st.integers(0, 3))):
+      for _ in range(d(st.integers(1, 5)) if o["ff_heavy"] else d(st.integers(0, 3))):
         t = self.any_type()
         if o["translatable"] and t[0] == "s" and not _flat(t): t = ["b", type_width(t)]
         n = self.new_signal(t)
